@@ -31,6 +31,9 @@ def canon_row(terms, lo, hi):
         acc[n] = acc.get(n, Fraction(0)) + c
     items = sorted((n, c) for n, c in acc.items() if c != 0)
     if not items:
+        # a row without variables says lo <= 0 <= hi: only whether that holds matters (0 >= 0 and 0 <= 0 are the same row)
+        if (lo is None or lo <= 0) and (hi is None or hi >= 0):
+            return "row <empty> satisfied"
         return f"row {_bs(lo, True)} {_bs(hi, False)} <empty>"
     if items[0][1] < 0:
         items = [(n, -c) for n, c in items]
